@@ -60,6 +60,13 @@ class Harness(Exception):
     pass
 
 
+class RunDied(Harness):
+    """A simulated run was killed (per-run time limit) or crashed the interpreter."""
+
+
+RUN_TIMEOUT_S = int(os.environ.get("VERIF_RUN_TIMEOUT_S", "150"))
+
+
 # ------------------------------------------------------------------------------------------------
 # known findings
 # ------------------------------------------------------------------------------------------------
@@ -121,6 +128,10 @@ def isolated(fn, *args):
         code = 0
         try:
             os.close(r)
+            import signal
+
+            signal.signal(signal.SIGALRM, signal.SIG_DFL)
+            signal.alarm(RUN_TIMEOUT_S)  # a run that takes this long dies and is counted as discarded
             try:
                 payload = pickle.dumps(("ok", fn(*args)))
             except BaseException as e:  # noqa: BLE001
@@ -138,7 +149,7 @@ def isolated(fn, *args):
         data = f.read()
     _, status = os.waitpid(pid, 0)
     if not data:
-        raise Harness("isolated run died without a result (wait status %d)" % status)
+        raise RunDied("isolated run died without a result (wait status %d)" % status)
     kind, value = pickle.loads(data)
     if kind == "err":
         raise Harness("isolated run raised " + value)
@@ -166,7 +177,12 @@ def _work(engine_name, tier, seed, start, end, hard_timeout):
         preload(eng, tier)
         out = []
         for i in range(start, end):
-            out.append(isolated(eng.run_index, seed, tier, i, worker_tmp()))
+            try:
+                out.append(isolated(eng.run_index, seed, tier, i, worker_tmp()))
+            except RunDied as e:
+                if not hasattr(eng, "discard_result"):
+                    raise
+                out.append(eng.discard_result(i, str(e)))
         return out
     finally:
         faulthandler.cancel_dump_traceback_later()
